@@ -352,3 +352,54 @@ Theorem C18_conc_readfirst_get_refuted :
     any_crashed cfg = true.
 Proof. exact readfirst_get_refuted. Qed.
 Print Assumptions C18_conc_readfirst_get_refuted.
+
+(** ** The remaining methods at the pointer level (Lfu/LfuAuxModel.v) *)
+From DD Require Import Lfu.LfuAuxModel Lfu.LfuAuxProofs.
+
+(** set(key, report_type, value) on the heap: every trace of get / set / set-with-report-type
+    from the empty cache never hits the error value, produces every output of LfuRtModel.v
+    (content, not_found, done, raised) and ends in a heap representing its final state *)
+Theorem C18_rt_heap_refines : forall (c : nat) (ops : list rop), 1 <= c ->
+  exists h', hrrun (hempty c) ops = Some (h', snd (rrun (empty c) ops)) /\
+             heap_repr h' (rstate_of c ops).
+Proof. exact rt_heap_refines. Qed.
+Print Assumptions C18_rt_heap_refines.
+
+Theorem C18_rt_heap_set_refines : forall (h : heap content) (s : lfu content) (k : key) (rt : option rtype) (v : Z),
+  1 <= cap s -> nonempty (buckets s) -> heap_repr h s ->
+  exists h', hset_rt h k rt v = Some (h', snd (set_rt s k rt v)) /\
+             heap_repr h' (fst (set_rt s k rt v)).
+Proof. exact hset_rt_refines. Qed.
+Print Assumptions C18_rt_heap_set_refines.
+
+(** get_sorted_cache_keys on any heap representing [s]: never an error; every key with the
+    frequency of its bucket, exactly once; descending by frequency ... *)
+Theorem C18_sorted_cache_keys : forall (val : Type) (h : heap val) (s : lfu val), heap_repr h s ->
+  exists l, h_sorted_keys h = Some l /\
+            Permutation.Permutation l (key_freqs_of (buckets s)) /\
+            StronglySorted (fun a b => snd b <= snd a) l.
+Proof. exact sorted_keys_spec. Qed.
+Print Assumptions C18_sorted_cache_keys.
+
+(** ... and stable: the keys of any one frequency keep the order of the key table *)
+Theorem C18_sorted_cache_keys_stable : forall (n : nat) (l : list (key * nat)),
+  filter (fun y => Nat.eqb (snd y) n) (sort_desc l) = filter (fun y => Nat.eqb (snd y) n) l.
+Proof. exact sort_desc_stable. Qed.
+Print Assumptions C18_sorted_cache_keys_stable.
+
+(** get_average_frequency = (sum of the frequencies of all keys) / (number of keys) *)
+Theorem C18_average_frequency : forall (val : Type) (h : heap val) (s : lfu val), heap_repr h s ->
+  h_avg_freq h = Some (sum_freqs (key_freqs_of (buckets s)), size s).
+Proof. exact avg_freq_spec. Qed.
+Print Assumptions C18_average_frequency.
+
+(** ** Keys are only compared (Lfu/LfuKeys.v): renaming the keys by any injective [f] renames
+    the final state and leaves every output unchanged - so the behaviour on keys of any type
+    is that of the model on any injective numbering of the keys of the trace *)
+From DD Require Import Lfu.LfuKeys.
+Theorem C18_keys_only_compared : forall (val : Type) (f : key -> key) (c : nat) (ops : list (op val)),
+  (forall a b, f a = f b -> a = b) ->
+  snd (run (empty c) (map (ren_op val f) ops)) = snd (run (empty c) ops) /\
+  state_of c (map (ren_op val f) ops) = ren_state val f (state_of c ops).
+Proof. exact keys_only_compared. Qed.
+Print Assumptions C18_keys_only_compared.
